@@ -63,6 +63,26 @@ func scenarioF1(c *Ctx) (*hist, bool, error) {
 	return h, h.c.nFail > nf, nil
 }
 
+// F3: a managed write batch writes k@5=v1, k@7=v2, k@5=v3; the last call on k@5 must win.
+func scenarioF3(c *Ctx) (*hist, bool, error) {
+	h, err := newHist(c, sysOpts{Managed: true, NKeep: 100, MaxLevels: 4, VThreshold: 32, TableSize: 1 << 20, BaseLevelSize: 8 << 10})
+	if err != nil {
+		return nil, false, err
+	}
+	defer h.close()
+	k := []byte("k")
+	nf := h.c.nFail
+	t := h.batch(0, 2, 0, []batchCall{{Key: k, Val: []byte("v1"), Ver: 5}, {Key: k, Val: []byte("v2"), Ver: 7}, {Key: k, Val: []byte("v3"), Ver: 5}})
+	h.begin(t, false, 5)
+	h.get(t, k)
+	h.discard(t)
+	h.begin(t+1, false, 9)
+	h.get(t+1, k)
+	h.iterate(t+1, itOpts{All: true}, nil)
+	h.discard(t + 1)
+	return h, h.c.nFail > nf, nil
+}
+
 type scenario struct {
 	id  string
 	run func(c *Ctx) (*hist, bool, error)
@@ -70,6 +90,8 @@ type scenario struct {
 
 var scenarios = map[string][]scenario{
 	"C12": {{"F1", scenarioF1}},
+	"C27": {{"F3", scenarioF3}},
+	"C36": {{"F3", scenarioF3}},
 	"C01": {{"F1", scenarioF1}},
 }
 
